@@ -106,7 +106,7 @@ def why_inadmissible(shape, newshp, offset, mode):
     return None
 
 
-@functools.lru_cache(maxsize=None)
+@functools.lru_cache(maxsize=2048)
 def matrix(shape, newshp, offset, mode):
     """(M, cmask) for C-order flattened arrays: ``out.ravel() = M @ x.ravel() + c * cmask``.
 
